@@ -88,6 +88,8 @@ type machine struct {
 	pendVal   uint64
 	pendHas   bool
 	pc        []*Term
+	pcVars    map[int]bool
+	pcSeen    map[int]bool
 	model     map[int]uint64 // cached model of pc (var id -> value); nil if unknown
 	modelOK   bool
 
@@ -136,6 +138,8 @@ func (m *machine) beginPath(prefix []dec) {
 	m.prefix = prefix
 	m.decisions = m.decisions[:0]
 	m.pc = nil
+	m.pcVars = map[int]bool{}
+	m.pcSeen = map[int]bool{}
 	m.model = map[int]uint64{}
 	m.modelOK = true
 	m.stubs = map[string]value{}
@@ -186,10 +190,32 @@ func (m *machine) endPath() {
 
 // ---------- decisions ----------
 
+// freshBoolVar: c is v or ¬v for a boolean variable not occurring in the path condition.
+func (m *machine) freshBoolVar(c *Term) bool {
+	if c.Op == OpNot {
+		c = c.Args[0]
+	}
+	return c.Op == OpVar && c.W == 0 && !m.pcVars[c.ID]
+}
+
+func (m *machine) noteVars(t *Term) {
+	if m.pcSeen[t.ID] {
+		return
+	}
+	m.pcSeen[t.ID] = true
+	if t.Op == OpVar {
+		m.pcVars[t.ID] = true
+	}
+	for _, a := range t.Args {
+		m.noteVars(a)
+	}
+}
+
 func (m *machine) addPC(c *Term) {
 	if isTrue(c) {
 		return
 	}
+	m.noteVars(c)
 	m.pc = append(m.pc, c)
 	m.sol.Assert(m.ts, c)
 }
@@ -256,6 +282,10 @@ func (m *machine) decide(c *Term, why string) bool {
 	}
 	v, known := m.evalUnderModel(c)
 	switch {
+	case m.freshBoolVar(c):
+		// a boolean input that the path condition does not mention: both sides feasible
+		tF, fF = Sat, Sat
+		m.modelOK = false
 	case known && v == 1:
 		tF = Sat
 		sm, sok := m.model, m.modelOK
